@@ -278,8 +278,148 @@ def verify_c11(ctx, repo, prop="C11"):
     dsl.verify(ctx, repo, dsl.Registry(), prop, PT + ".create_topology_dataframe", h_topology_dataframe, expect_covers=["topology-frame.some", "topology-frame.empty"])
     dsl.verify(ctx, repo, dsl.Registry(), prop, PT + ".create_topology_dataframe", h_topology_ids, expect_covers=["topology-ids"])
     dsl.verify(ctx, repo, dsl.Registry(), prop, PT + ".write_map_results", h_map_frequency, expect_covers=["map.frequency"])
+    dsl.verify(ctx, repo, dsl.Registry(), prop, PT + ".create_topologies_archive", h_archive, expect_covers=["archive.empty", "archive.included", "archive.excluded"])
     ctx.trust("pandas DataFrame / sort_values / iloc / insert / index.astype by their documented semantics (term-level contracts state WHICH expressions are used)")
 
 
 def verify_c12(ctx, repo, prop="C12"):
     dsl.verify(ctx, repo, dsl.Registry(), prop, PT + ".get_clone_table", h_clone_table, expect_covers=["clone-table.clone", "clone-table.outlier"])
+
+
+def h_archive(I, fi):
+    """create_topologies_archive: for every distinct topology the row of the ranked table that carries its five identifying fields gives its id "t_<rank>";
+    it is archived exactly when rank < top_trees, as <id>/<id>_results_table.tsv (the clone table of THAT tree with the trace's data, samples and clusters)
+    and <id>/<id>.nwk (THAT tree's Newick string)."""
+    P = I.P
+    I.registry.structured_strings = True
+    log = []
+    rank = alg.sym("rank", "Int")
+    top = alg.sym("top_trees", "Int")
+    P.assume(z3.And(P.z(rank) >= 0, P.z(top) >= 0))
+
+    class TreeTok(Model):
+        def m_to_newick_string(self, I_):
+            return ("newick-of-the-tree",)
+
+    tree = TreeTok()
+    values = {k: ("value-of", k) for k in ("topology", "count", "log_p_joint_max", "iter", "chain_num")}
+
+    class Topos(Model):
+        def m_items(self, I_):
+            return SymSeq("topologies.items", alg.sym("n_topologies", "Int"), lambda j: (tree, values))
+
+    P.assume(P.z(alg.sym("n_topologies", "Int")) >= 0)
+
+    class Row(E):
+        def m___len__(self, I_):
+            return 1  # exactly one row carries the five fields of a topology (counts / pointers make them unique: count_topology contract)
+
+    class Frame(E):
+        pass
+
+    df = Frame("ranked")
+
+    class Loc(Model):
+        def getitem(self, I_, mask):
+            log.append(("select", mask))
+            return Row("row")
+
+    df.a_loc = lambda I_: Loc()
+
+    class IdStr(Model):
+        def getitem(self, I_, sl):
+            return ("suffix", sl.start if isinstance(sl, slice) else sl)
+
+    def vals0(term):
+        return term
+
+    class Res0(Model):
+        def getitem(self, I_, key):
+            return ("trace-field", key)
+
+        def m_get(self, I_, key, default=None):
+            return ("trace-field", key)
+
+    class Results(Model):
+        def getitem(self, I_, c):
+            return Res0()
+
+    ids = []
+
+    def to_int(I_, x):
+        ids.append(x)
+        return rank
+
+    I.registry.globals_override["int"] = to_int
+
+    class Table(Model):
+        def m_to_csv(self, I_, path, index=True, sep=","):
+            log.append(("csv", path, index, sep))
+
+    I.registry.call_contracts[PT + ".get_clone_table"] = lambda I_, a, k, n: (log.append(("table", a[0], a[1], a[2], k.get("clusters"))), Table())[1]
+    I.registry.call_contracts[PT + ".print_string_to_file"] = lambda I_, a, k, n: log.append(("print", a[0], a[1]))
+    I.registry.call_contracts["phyclone.process_trace.utils.print_string_to_file"] = I.registry.call_contracts[PT + ".print_string_to_file"]
+
+    class Ctx(Model):
+        def __init__(self, v):
+            self.v = v
+
+        def m___enter__(self, I_):
+            return self.v
+
+        def m___exit__(self, I_, *a):
+            pass
+
+    class Archive(Model):
+        def m_add(self, I_, path, arcname=None):
+            log.append(("add", path, arcname))
+
+    class Tar(Model):
+        def m_open(self, I_, path, mode):
+            log.append(("tar", path, mode))
+            return Ctx(Archive())
+
+    class Tmp(Model):
+        def m_TemporaryDirectory(self, I_):
+            return Ctx(("tmp-dir",))
+
+    class OsPath(Model):
+        def m_join(self, I_, *a):
+            return ("join",) + tuple(a)
+
+    class Os(Model):
+        def a_path(self, I_):
+            return OsPath()
+
+    I.registry.globals_override["tarfile"] = Tar()
+    I.registry.globals_override["tempfile"] = Tmp()
+    I.registry.globals_override["os"] = Os()
+    I.registry.globals_override["str"] = lambda I_, x="": x
+    # row["topology_id"].values[0] -> the id string; its suffix is the rank
+    Row.getitem = lambda self, I_, key: E("col", key)
+    I.registry.generic_loops.add(fi.qualname)
+    I.call_function(fi, [df, Results(), top, Topos(), ("archive-path",)], {}, force_inline=True)
+    gens = P.ghost.get("generic_indices", [])
+    if not gens:
+        dsl.cover(I, "archive.empty")
+        P.check("archive.nothing-for-no-topology", not [e for e in log if e[0] in ("add", "csv", "table")], "no topology, nothing archived", kind="post")
+        return
+    sel = [e for e in log if e[0] == "select"]
+    fields = _flat(sel[0][1]) if sel else ()
+    P.check("archive.row-by-the-five-fields", len(sel) == 1 and all(repr(("value-of", k)) in repr(fields) for k in ("topology", "count", "log_p_joint_max", "iter", "chain_num")),
+            "the table row of a topology is selected by topology string, count, score, iteration and chain together", kind="post")
+    adds = [e for e in log if e[0] == "add"]
+    included = not P.feasible(P.z(rank) >= P.z(top))
+    excluded = not P.feasible(P.z(rank) < P.z(top))
+    if adds:
+        dsl.cover(I, "archive.included")
+        tab = [e for e in log if e[0] == "table"]
+        P.check("archive.exactly-the-top-ranked", included, "a topology is archived only when its rank is below the requested number", kind="post")
+        P.check("archive.table-of-that-tree", len(tab) == 1 and tab[0][3] is tree and tab[0][1] == ("trace-field", "data") and tab[0][2] == ("trace-field", "samples") and tab[0][4] == ("trace-field", "clusters"),
+                "its table is the clone table of that very tree with the trace's data, samples and clusters", kind="post")
+        pr = [e for e in log if e[0] == "print"]
+        P.check("archive.newick-of-that-tree", len(pr) == 1 and pr[0][1] == ("newick-of-the-tree",), "its Newick file holds that tree's string", kind="post")
+        P.check("archive.two-members-per-topology", len(adds) == 2, "two archive members per topology: table and tree", kind="post")
+    else:
+        dsl.cover(I, "archive.excluded")
+        P.check("archive.exactly-the-top-ranked[skip]", excluded and not [e for e in log if e[0] in ("csv", "table", "print")], "a topology ranked at or beyond the requested number is skipped entirely", kind="post")
